@@ -227,7 +227,7 @@ func genRestart(t *rapid.T) Case {
 func init() {
 	tail := "; solved with certificate generation on (channel buffered or consumed concurrently) x learned-clause limit {default, 2..12, n+1, n+8} and again with it off; Unsat: each line RUP w.r.t. formula + earlier lines and the empty clause RUP-derivable at the end, by an independent checker on literal sets; Sat: each line a consequence (truth table n<=20, else RUP or DPLL entailment), same verdict and valid models with certification on and off; non-trivial = Unsat, not decided at parse time, >=1 non-empty certificate line"
 	vf.Register(
-		vf.Sub[Case]{Name: "small", Quick: 4000, Thorough: 150000, Gen: genSmall, Check: check, Floor: 0.05,
+		vf.Sub[Case]{Name: "small", Quick: 4000, Thorough: 75000, Gen: genSmall, Check: check, Floor: 0.05,
 			Rule: "CNF n<=10 with duplicate literals, tautologies, units, empty clauses" + tail},
 		vf.Sub[Case]{Name: "hard-small", Quick: 500, Thorough: 15000, Gen: genHard, Check: check, Floor: 0.4,
 			Classes: map[string]float64{"cert-lines>=20": 0.2, "reduceDB>0": 0.08},
